@@ -5,5 +5,6 @@ CONSTANTS
   MaxIds = 4
   MaxStarts = 4
   SeedSource = "time"
+  Acts = {}
 INVARIANT IdsUnique
 CHECK_DEADLOCK FALSE
